@@ -118,7 +118,7 @@ impl Property for C07 {
         ]
     }
     fn required_labels(&self, _t: Tier) -> Vec<&'static str> {
-        vec!["built", "foreign", "asset", "forced-large-file-format", "foreign-ghost-omitted", "foreign-reordered", "foreign-stripped", "size-mod4-0", "size-mod4-1", "size-mod4-2", "size-mod4-3", "comp-none", "comp-gzip", "comp-zstd", "comp-xz", "comp-bzip2", "big-file"]
+        vec!["built", "foreign", "asset", "level-zstd-22", "level-xz-9", "level-gzip-0", "level-bzip2-1", "forced-large-file-format", "foreign-ghost-omitted", "foreign-reordered", "foreign-stripped", "size-mod4-0", "size-mod4-1", "size-mod4-2", "size-mod4-3", "comp-none", "comp-gzip", "comp-zstd", "comp-xz", "comp-bzip2", "big-file"]
     }
     fn phases(&self, tier: Tier) -> Vec<Phase<C07Case>> {
         vec![
@@ -130,6 +130,25 @@ impl Property for C07 {
                     config_any(CfgParams { max_files: 8, sizes: size_mixed(), comp: comp_fast(), sign_prob: 0.0, file_kinds: true, force_large_prob: 0.25, rich_meta: false })
                         .prop_map(C07Case::Built)
                         .boxed()
+                }),
+            },
+            Phase::Enumerate {
+                name: "every-documented-level",
+                total: 51 * 3,
+                exhaustive: true,
+                gen: Arc::new(|i| {
+                    // gzip 0..=9, zstd 1..=22, xz 0..=9, bzip2 1..=9 crossed with three file sets
+                    let l = i % 51;
+                    let (kind, level) = if l < 10 { (2u8, l as i32) } else if l < 32 { (3, (l - 10) as i32 + 1) } else if l < 42 { (4, (l - 32) as i32) } else { (5, (l - 42) as i32 + 1) };
+                    let mut c = BuilderConfig::minimal("levels");
+                    c.compression = Comp { kind, level: Some(level) };
+                    let mk = |name: &str, size: u32, kind: u8| FileSpec { dot_style: false, components: vec!["opt".into(), name.into()], content: ContentSpec { size, kind, seed: 11 }, mode: ModeSpec::Regular(0o644), user: None, group: None, flags: 0, caps: None, symlink: None, mtime: 5, verify: None };
+                    c.files = match i / 51 {
+                        0 => vec![],
+                        1 => vec![mk("a", 5, 1), mk("b", 0, 0), mk("c", 4097, 2)],
+                        _ => vec![mk("big", 70_000, 2), mk("text", 20_000, 1)],
+                    };
+                    Some(C07Case::Built(c))
                 }),
             },
             Phase::Random {
@@ -166,6 +185,9 @@ fn inner(case: &C07Case, o: &mut Outcome) -> Result<(), (String, String)> {
         C07Case::Built(cfg) => {
             o.label("built");
             super::c06::label_config(cfg, o);
+            if let Some(l) = cfg.compression.level {
+                o.label(format!("level-{}-{}", cfg.compression.name(), l));
+            }
             let mut sizes = std::collections::BTreeSet::new();
             for f in &cfg.files {
                 o.label(format!("size-mod4-{}", f.content.size % 4));
